@@ -187,6 +187,9 @@ def gen_layout(rng):
         h["pre"] = pre
     if rng.random() < 0.2:
         h["post"] = [rng.choice(["# trailing comment é", "Z = 3", "def tail():\n    return 'ä'"])]
+    elif rng.random() < 0.12:
+        # a late top-level import below the code (E402 style): imports the tool adds must still land in the leading import block
+        h["post"] = [rng.choice(["import os  # noqa: E402", "from os import sep  # late import", "import json as _json"])]
     return h
 
 
